@@ -507,3 +507,83 @@ Proof.
       * destruct (Z.eqb_spec (i mod 64) (j mod 64)); [lia|]. cbn [negb]. rewrite andb_true_r, andb_false_r, orb_false_r. reflexivity.
     + destruct (Z.eqb_spec j i) as [E|E]; [subst j; contradiction|]. rewrite wget_wset_other by lia. reflexivity.
 Qed.
+
+(* ------------------------------------------------------------------ clear_all / fill_all / truncate at the bit-set level *)
+Lemma wpb_le_cap b a : bs_inv a b -> 0 <= words_per_bits (b_size b) <= zlength (b_words b) /\
+  (forall j, 0 <= j < b_size b -> 0 <= j / 64 < words_per_bits (b_size b)).
+Proof.
+  intros (B1 & B2 & B3 & B4 & B5 & B6).
+  pose proof (Z.div_mod (b_cap b) 64 ltac:(lia)) as Hcd. rewrite B2 in Hcd.
+  destruct (div64_facts (b_size b) ltac:(lia)) as (D1 & D2 & D3).
+  rewrite (wpb_spec (b_size b) ltac:(lia)). rewrite B4. split.
+  - destruct (Z.eqb_spec (b_size b mod 64) 0); lia.
+  - intros j Hj. destruct (div64_facts j ltac:(lia)) as (J1 & J2 & J3).
+    assert (j / 64 <= b_size b / 64) by (apply Z.div_le_mono; lia).
+    destruct (Z.eqb_spec (b_size b mod 64) 0); lia.
+Qed.
+
+Theorem bs_clear_all_sound a b : bs_inv a b ->
+  bs_inv a (bs_clear_all b) /\ b_size (bs_clear_all b) = b_size b /\ forall j, 0 <= j < b_size b -> bs_bit (bs_clear_all b) j = false.
+Proof.
+  intros B. pose proof B as (B1 & B2 & B3 & B4 & B5 & B6). destruct (wpb_le_cap b a B) as [Hw Hj].
+  unfold bs_clear_all, bs_with_words.
+  set (n := Z.to_nat (words_per_bits (b_size b))).
+  assert (Hn : Z.of_nat n = words_per_bits (b_size b)) by (unfold n; lia).
+  assert (Hget : forall k, 0 <= k < words_per_bits (b_size b) -> wget (wfill (b_words b) 0 n 0) k = 0).
+  { intros k Hk. rewrite wget_wfill by lia. destruct (Z.leb_spec 0 k); [|lia]. destruct (Z.ltb_spec k (0 + Z.of_nat n)); [reflexivity|lia]. }
+  split; [|split; [reflexivity|]].
+  - unfold bs_inv; cbn [b_size b_cap b_words b_data]. split; [exact B1|]. split; [exact B2|]. split; [exact B3|].
+    split; [rewrite zlength_wfill; exact B4|]. split; [|exact B6].
+    intros Hm. destruct (div64_facts (b_size b) ltac:(lia)) as (D1 & D2 & D3).
+    rewrite Hget.
+    + split; [lia|]. apply Z.pow_pos_nonneg; lia.
+    + rewrite (wpb_spec (b_size b) ltac:(lia)). destruct (Z.eqb_spec (b_size b mod 64) 0); [contradiction|lia].
+  - intros j Hjr. unfold bs_bit; cbn [b_words]. rewrite bv_get_wget, Hget by (apply Hj; exact Hjr). apply Z.bits_0.
+Qed.
+
+Theorem bs_fill_all_sound a b : bs_inv a b ->
+  bs_inv a (bs_fill_all b) /\ b_size (bs_fill_all b) = b_size b /\ forall j, 0 <= j < b_size b -> bs_bit (bs_fill_all b) j = true.
+Proof.
+  intros B. pose proof B as (B1 & B2 & B3 & B4 & B5 & B6). destruct (wpb_le_cap b a B) as [Hw Hj].
+  unfold bs_fill_all, bs_clear_unused, bs_with_words. cbn [b_size b_words b_data b_cap].
+  set (n := Z.to_nat (words_per_bits (b_size b))).
+  assert (Hn : Z.of_nat n = words_per_bits (b_size b)) by (unfold n; lia).
+  set (ws := wfill (b_words b) 0 n (Z.ones 64)).
+  assert (Hget : forall k, 0 <= k < words_per_bits (b_size b) -> wget ws k = Z.ones 64).
+  { intros k Hk. unfold ws. rewrite wget_wfill by lia. destruct (Z.leb_spec 0 k); [|lia]. destruct (Z.ltb_spec k (0 + Z.of_nat n)); [reflexivity|lia]. }
+  assert (Hlen : zlength ws = b_cap b / 64) by (unfold ws; rewrite zlength_wfill; exact B4).
+  destruct (div64_facts (b_size b) ltac:(lia)) as (D1 & D2 & D3).
+  pose proof (Z.div_mod (b_cap b) 64 ltac:(lia)) as Hcd. rewrite B2 in Hcd.
+  destruct (Z.eqb_spec (b_size b mod 64) 0) as [E|E]; cbn [b_size b_words b_data b_cap].
+  - split; [|split; [reflexivity|]].
+    + unfold bs_inv; cbn [b_size b_cap b_words b_data]. split; [exact B1|]. split; [exact B2|]. split; [exact B3|]. split; [exact Hlen|].
+      split; [intros Hm; contradiction|exact B6].
+    + intros j Hjr. unfold bs_bit; cbn [b_words]. rewrite bv_get_wget, Hget by (apply Hj; exact Hjr).
+      destruct (div64_facts j ltac:(lia)) as (J1 & J2 & J3). rewrite ones_testbit by lia. apply Z.ltb_lt. lia.
+  - assert (Hidx : 0 <= b_size b / 64 < zlength ws) by (rewrite Hlen; lia).
+    assert (Hidxw : 0 <= b_size b / 64 < words_per_bits (b_size b)).
+    { rewrite (wpb_spec (b_size b) ltac:(lia)). destruct (Z.eqb_spec (b_size b mod 64) 0); [contradiction|lia]. }
+    split; [|split; [reflexivity|]].
+    + unfold bs_inv; cbn [b_size b_cap b_words b_data]. split; [exact B1|]. split; [exact B2|]. split; [exact B3|].
+      split; [rewrite zlength_wset; exact Hlen|]. split; [|exact B6].
+      intros _. rewrite wget_wset_same by lia. rewrite Z.land_ones by lia. apply Z.mod_pos_bound. apply Z.pow_pos_nonneg; lia.
+    + intros j Hjr. unfold bs_bit; cbn [b_words]. rewrite bv_get_wget.
+      destruct (div64_facts j ltac:(lia)) as (J1 & J2 & J3).
+      destruct (Z.eq_dec (j / 64) (b_size b / 64)) as [Eq|Ne].
+      * rewrite Eq, wget_wset_same by lia. rewrite Hget by exact Hidxw. rewrite Z.land_spec, !ones_testbit by lia.
+        apply andb_true_intro. split; apply Z.ltb_lt; lia.
+      * rewrite wget_wset_other by lia. rewrite Hget by (apply Hj; exact Hjr). rewrite ones_testbit by lia. apply Z.ltb_lt. lia.
+Qed.
+
+(* truncate(n) is resize to min(size, n) *)
+Theorem bs_truncate_sound a b n : bs_inv a b -> 0 <= n ->
+  bs_inv a (bs_truncate b n) /\ b_size (bs_truncate b n) = Z.min (b_size b) n /\
+  forall j, 0 <= j < Z.min (b_size b) n -> bs_bit (bs_truncate b n) j = bs_bit b j.
+Proof.
+  intros B Hn. pose proof B as (B1 & _). set (mok := fun _ : Z => true).
+  pose proof (bs_resize_shrink_sound mok a b (Z.min (b_size b) n) 0 false B ltac:(lia)) as H.
+  assert (E : bs_resize mok a b (Z.min (b_size b) n) 0 false = (EOk, a, bs_truncate b n)).
+  { unfold bs_resize, bs_truncate, bs_clear_unused, bs_with_words. cbn [b_size b_words b_data b_cap].
+    destruct (Z.leb_spec (Z.min (b_size b) n) (b_size b)); [|lia]. destruct (Z.min (b_size b) n mod 64 =? 0); reflexivity. }
+  rewrite E in H. destruct H as (_ & _ & H1 & H2 & _ & _ & H3). auto.
+Qed.
